@@ -293,7 +293,7 @@ func c19Run(c *core.Ctx) {
 	}
 	_ = rec
 	// (B) lengths 4..7: [Content_Types].xml first, the marker at every position 2..L among fillers
-	fillers := []string{"_rels/.rels", "docProps/app.xml", "customXml/item1.xml", "[trash]/0000.dat", "a.txt", "d/"}
+	fillers := []string{"_rels/.rels", "docProps/app.xml", "customXml/item1.xml", "[trash]/0000.dat", "a.txt", "d/", "media/" + strings.Repeat("n", 300) + ".png"}
 	for L := 4; L <= 7; L++ {
 		fs := fillers
 		if L >= 6 && !c.Thorough() {
